@@ -39,6 +39,7 @@ type srvResp struct {
 	Stall  bool  // the body never arrives: Read blocks until the request is cancelled
 	Err    bool  // transport error
 	ErrIs  error // transport error that wraps this error (e.g. context.DeadlineExceeded, as http.Client.Timeout produces)
+	Trunc  bool  // the connection drops in the middle of the body: Content-Length announces all of it, half arrives, then io.ErrUnexpectedEOF
 }
 
 type reqRec struct {
@@ -122,8 +123,15 @@ func (s *stubServer) RoundTrip(req *http.Request) (*http.Response, error) {
 	}
 	resp.Body = io.NopCloser(bytes.NewReader(body))
 	resp.ContentLength = int64(len(body))
+	if r.Trunc {
+		resp.Body = io.NopCloser(io.MultiReader(bytes.NewReader(body[:len(body)/2]), errReader{io.ErrUnexpectedEOF}))
+	}
 	return resp, nil
 }
+
+type errReader struct{ err error }
+
+func (e errReader) Read([]byte) (int, error) { return 0, e.err }
 
 func (s *stubServer) requests() []reqRec {
 	s.mu.Lock()
